@@ -13,5 +13,7 @@ CONSTANTS
   MaxNodes = 5
   MaxSteps = 2
   LoadVals <- LiveChains
+  COrigins = {"new"}
+  SOrigins = {"new"}
 INVARIANTS LiveSize LiveDecodes HeapOk
 CHECK_DEADLOCK FALSE
